@@ -18,9 +18,16 @@ package nlp
 //@ func (*QueryProcessor).ProcessQuery
 //@   modifies nothing
 //@   ensures[nlp.process-query] result != nil && fresh(result)
+// The hint tables only read the analysis and return a list (possibly shared with it).
+//@ func (*ProcessedQuery).getCommandHints
+//@   modifies nothing
 //@ func (*ProcessedQuery).GetEnhancedKeywords
 //@   modifies nothing
 //@   ensures[nlp.enhanced-fresh] fresh(result)
+//@   ensures[C06.enhanced-nodup] noDup(result)
+//@   ensures[C06.enhanced-keywords-first] noDup(pq.Keywords) ==> len(result) >= len(pq.Keywords) && (forall i int :: 0 <= i && i < len(pq.Keywords) ==> result[i] == pq.Keywords[i])
+//@   hint[C06.prefix-copied] removeDuplicates len(enhanced) >= len(pq.Keywords) && (forall i int :: 0 <= i && i < len(pq.Keywords) ==> enhanced[i] == pq.Keywords[i])
+//@   hint[C06.prefix-nodup] removeDuplicates noDup(pq.Keywords) ==> noDupUpTo(enhanced, len(pq.Keywords))
 //@ func (*QueryProcessor).GetSynonyms
 //@   modifies nothing
 
@@ -64,14 +71,18 @@ package nlp
 //@   ensures[C06.dedup-nodup] forall a, b int :: 0 <= a && a < b && b < len(result) ==> result[a] != result[b]
 //@   ensures[C06.dedup-subset] forall a int :: 0 <= a && a < len(result) ==> (exists k int :: 0 <= k && k < len(slice) && slice[k] == result[a])
 //@   ensures[C06.dedup-superset] forall k int :: 0 <= k && k < len(slice) ==> (exists a int :: 0 <= a && a < len(result) && result[a] == slice[k])
+//@   ensures[C06.dedup-prefix] forall n int :: 0 <= n && n <= len(slice) && old(noDupUpTo(slice, n)) ==> len(result) >= n && (forall i int :: 0 <= i && i < n ==> result[i] == slice[i])
 //@ loop 1
 //@   invariant seen != nil && fresh(seen) && len(result) <= $i
 //@   invariant forall a int :: 0 <= a && a < len(result) ==> (result[a] in seen) && seen[result[a]] && (exists k int :: 0 <= k && k < $i && slice[k] == result[a])
 //@   invariant forall q string :: (q in seen) && seen[q] ==> (exists a int :: 0 <= a && a < len(result) && result[a] == q)
 //@   invariant forall a, b int :: 0 <= a && a < b && b < len(result) ==> result[a] != result[b]
 //@   invariant forall k int :: 0 <= k && k < $i ==> (slice[k] in seen) && seen[slice[k]]
+//@   invariant forall n int :: 0 <= n && n <= $i && old(noDupUpTo(slice, n)) ==> len(result) >= n
+//@   invariant forall n, i int :: 0 <= i && i < n && n <= $i && old(noDupUpTo(slice, n)) ==> result[i] == slice[i]
 
 // ProcessQuery: the analysis lives in fresh memory; the three word lists are duplicate-free.
+//@ opaque func noDupUpTo(s []string, n int) bool = forall a, b int :: 0 <= a && a < b && b < n ==> s[a] != s[b]
 //@ pure func noDup(s []string) bool = forall a, b int :: 0 <= a && a < b && b < len(s) ==> s[a] != s[b]
 //@ func (*QueryProcessor).ProcessQuery
 //@   ensures[C06.process-nodup] noDup(result.Keywords) && noDup(result.Actions) && noDup(result.Targets)
